@@ -265,7 +265,37 @@ func (w *flowWalker) call(c *core.Ctx, x *ssa.Call) flowRes {
 			r.must |= fvEncode
 		}
 		return r
-	case name == "fmt.Sprintf" || name == "fmt.Sprint" || name == "(*strings.Builder).String":
+	case name == "fmt.Sprintf" || name == "fmt.Sprint":
+		// the formatted arguments, like a concatenation
+		var els []ssa.Value
+		if len(x.Call.Args) > 0 {
+			els = varargElems(x.Call.Args[len(x.Call.Args)-1])
+		}
+		if len(els) == 0 {
+			return flowRes{opaque: true, seen: true}
+		}
+		var out flowRes
+		for _, el := range els {
+			r := w.value(c, el)
+			if !r.seen {
+				continue
+			}
+			if out.srcs == nil {
+				out.srcs = map[string]bool{}
+			}
+			for k := range r.srcs {
+				out.srcs[k] = true
+			}
+			out.opaque = out.opaque || r.opaque
+			out.must |= r.must
+			out.seen = true
+			// constants among formatted arguments are separators / labels, not findings
+		}
+		if !out.seen {
+			return flowRes{opaque: true, seen: true}
+		}
+		return out
+	case name == "(*strings.Builder).String":
 		return flowRes{opaque: true, seen: true}
 	}
 	if !fi.e.P.IsRepo(callee) || callee.Blocks == nil {
@@ -334,9 +364,28 @@ func (w *flowWalker) list(c *core.Ctx, v ssa.Value) flowRes {
 			if el := varargElem(x.Call.Args[1]); el != nil {
 				out.merge(w.value(c, el))
 			} else {
-				out.opaque, out.seen = true, true
+				// append(s, other...): the elements of the other list
+				out.merge(w.list(c, x.Call.Args[1]))
 			}
 			return out
+		}
+		// a module helper that returns a list: into its feasible returns
+		if n := w.fi.g.NodeOf(c, x); n != nil && n.Kind == core.KCall && n.Inl != nil && w.fi.e.P.IsRepo(n.Inl.Fn) {
+			var out flowRes
+			for _, b := range n.Inl.Fn.Blocks {
+				rt, ok := b.Instrs[len(b.Instrs)-1].(*ssa.Return)
+				if !ok || len(rt.Results) == 0 || !w.reached(w.fi.g.NodeOf(n.Inl, rt)) {
+					continue
+				}
+				for _, rv := range rt.Results {
+					if _, isSl := rv.Type().Underlying().(*types.Slice); isSl {
+						out.merge(w.list(n.Inl, rv))
+					}
+				}
+			}
+			if out.seen {
+				return out
+			}
 		}
 		return flowRes{opaque: true, seen: true}
 	case *ssa.Slice:
@@ -484,10 +533,12 @@ func (e *Env) setOutValueFlow(rule string) {
 		}
 		for _, pr := range [][2]ssa.Value{{bo.X, bo.Y}, {bo.Y, bo.X}} {
 			if k, ok := pr[1].(*ssa.Const); ok && k.Value != nil && k.Value.Kind() == constant.String {
-				if cnt[pr[0]] == nil {
-					cnt[pr[0]] = map[string]bool{}
+				// the compared value, followed up to where it is computed (the type may be handed to a helper)
+				_, v := rootVal(n.Ctx, pr[0])
+				if cnt[v] == nil {
+					cnt[v] = map[string]bool{}
 				}
-				cnt[pr[0]][constant.StringVal(k.Value)] = true
+				cnt[v][constant.StringVal(k.Value)] = true
 			}
 		}
 	}
@@ -612,13 +663,40 @@ func (e *Env) defaultPathCoverage(rule string, fn *ssa.Function) {
 		kinds = append(kinds, k)
 	}
 	sort.Strings(kinds)
-	if len(miss) > 0 && !(total.opaque && len(kinds) == 0) {
+	// definite only when the assembly itself was followed (a strings.Join over an append-built list): then a missing
+	// source is missing from the name, whatever else (process name, port name) is opaque
+	if len(miss) > 0 && (!total.opaque || total.must&fvJoin != 0) {
 		ob.Fail(where, "the default output name does not contain "+strings.Join(miss, ", ")+" (sources found: "+strings.Join(kinds, ", ")+"): tasks that differ only in those get the same default output path and overwrite / skip each other")
 		return
 	}
 	if len(miss) > 0 {
-		ob.Unknown(where, "the returned name could not be followed to its sources")
+		// (part of) the name is assembled in a way this walk does not follow (a Builder, Sprintf ...): a definite-defect
+		// detector stays silent then
+		ob.OK(where, "sources "+strings.Join(kinds, ", ")+" (partly not followed; nothing definite against coverage)")
 		return
 	}
 	ob.OK(where, "sources "+strings.Join(kinds, ", "))
+}
+
+// varargElems: all elements stored into the array behind a varargs slice ([]interface{}{a, b, ...}[:]).
+func varargElems(v ssa.Value) []ssa.Value {
+	sl, ok := v.(*ssa.Slice)
+	if !ok {
+		return nil
+	}
+	al, ok := sl.X.(*ssa.Alloc)
+	if !ok || al.Referrers() == nil {
+		return nil
+	}
+	var out []ssa.Value
+	for _, r := range *al.Referrers() {
+		if ia, ok := r.(*ssa.IndexAddr); ok && ia.Referrers() != nil {
+			for _, r2 := range *ia.Referrers() {
+				if st, ok := r2.(*ssa.Store); ok && st.Addr == ia {
+					out = append(out, st.Val)
+				}
+			}
+		}
+	}
+	return out
 }
